@@ -121,6 +121,12 @@ type tType struct {
 	MapTmpVarsPool *sync.Pool // for decoder tmp vars
 }
 
+// isBinary reports whether the Go value described by t is a []byte,
+// either directly or behind an optional pointer (*[]byte).
+func (t *tType) isBinary() bool {
+	return t.Tag == defs.T_binary || (t.IsPointer && t.V.Tag == defs.T_binary)
+}
+
 // Equal returns true if data of two pointers point to.
 func (t *tType) Equal(p0, p1 unsafe.Pointer) bool {
 	switch t.T {
